@@ -1089,7 +1089,7 @@ Qed.
 Fixpoint nends (k : N) (evs : list ev) : nat :=
   match evs with
   | [] => 0%nat
-  | EvEnd k' _ :: t => ((if k' =? k then 1 else 0) + nends k t)%nat
+  | EvEnd k' _ :: t => ((if N.eqb k' k then 1 else 0) + nends k t)%nat
   | EvOpen _ :: t => nends k t
   end.
 
@@ -1117,7 +1117,7 @@ Qed.
 Fixpoint run_evs (l : list (req * option resp * server * list ev)) : list ev :=
   match l with [] => [] | (_, _, _, evs) :: t => evs ++ run_evs t end.
 Definition final_server (sv : server) (l : list (req * option resp * server * list ev)) : server :=
-  last (map (fun x => snd (fst x)) l) sv.
+  fold_left (fun _ x => snd (fst x)) l sv.
 
 Lemma run_log cf rs : forall sv l e,
   run_reqs cf sv rs = (l, e) ->
@@ -1126,11 +1126,10 @@ Proof.
   induction rs as [|r t IH]; intros sv l e H; cbn [run_reqs] in H.
   - inversion H; subst. cbn. auto.
   - destruct (step cf sv r) as [sv' rp evs| |] eqn:S; try (inversion H; subst; cbn; auto; fail).
-    destruct (run_reqs cf sv' t) as [l' e'] eqn:R. inversion H; subst; clear H.
-    destruct (IH sv' l' e' eq_refl) as [W K]. destruct (step_alive _ _ _ _ _ _ S) as [W0 K0].
+    destruct (run_reqs cf sv' t) as [l' e'] eqn:R. destruct (IH sv' l' e' R) as [W K].
+    inversion H; subst; clear H. destruct (step_alive _ _ _ _ _ _ S) as [W0 K0].
     cbn [run_evs]. rewrite wf_log_app, kill_app, <- K0. split; [auto|].
-    unfold final_server in *. cbn [map fst snd]. destruct l' as [|y l'']; [cbn in *; exact K|].
-    cbn [map last] in *. exact K.
+    unfold final_server in *. cbn [fold_left fst snd]. exact K.
 Qed.
 
 (* every session of a run ends at most once; it has ended at the end of the run iff its end is logged *)
@@ -1143,8 +1142,375 @@ Proof.
   intros H. destruct (run_log _ _ _ _ _ H) as [W K].
   destruct (wf_log_ends _ _ k W) as [_ P]. cbn [alv init_server sessions map] in P.
   destruct P as [A B]; [cbn; discriminate|]. split; [exact A|].
-  rewrite B, <- K. unfold alv. rewrite nnth_map.
+  rewrite B. change (@nil bool) with (alv (init_server ips)). rewrite <- K. unfold alv. rewrite nnth_map.
   destruct (nnth k (sessions (final_server (init_server ips) l))) as [s|]; cbn [option_map].
   - split; [intros F; inversion F; eauto|intros (s0 & F & G); inversion F; subst; now rewrite G].
   - split; [discriminate|intros (s0 & F & _); discriminate].
+Qed.
+
+(* ---------- frame: what a step can do to a session record ---------- *)
+(* [same_but_conns a b]: if b is alive it is a with another connection list *)
+Definition same_but_conns (a b : session) : Prop :=
+  salive b = true -> exists l, b = upd_conns a l.
+
+Lemma sbc_refl a : same_but_conns a a.
+Proof. intros _. exists (sconns a). destruct a; reflexivity. Qed.
+Lemma sbc_trans a b c : salive b = true \/ salive c = false -> same_but_conns a b -> same_but_conns b c -> same_but_conns a c.
+Proof.
+  intros Hb H1 H2 Al. destruct Hb as [Hb|Hb]; [|congruence].
+  destruct (H2 Al) as (l2 & ->). destruct (H1 Hb) as (l1 & ->). exists l2. reflexivity.
+Qed.
+
+Definition frame (ss ss' : list session) : Prop :=
+  forall k s', nnth k ss' = Some s' -> exists s, nnth k ss = Some s /\ same_but_conns s s'.
+
+Lemma frame_refl ss : frame ss ss.
+Proof. intros k s' H. exists s'. split; [exact H|apply sbc_refl]. Qed.
+
+Lemma end_session_frame k w sv sv' evs : end_session k w sv = (sv', evs) -> frame (sessions sv) (sessions sv').
+Proof.
+  unfold end_session. intros H.
+  destruct (nnth k (sessions sv)) as [s|] eqn:Ek; [|inversion H; subst; apply frame_refl].
+  destruct (salive s); inversion H; subst; [|apply frame_refl]. cbn [sessions].
+  intros k' s' H1. rewrite (nnth_nset _ _ _ _ _ Ek) in H1.
+  destruct (N.eqb_spec k' k) as [->|]; [|exists s'; split; [exact H1|apply sbc_refl]].
+  inversion H1; subst s'. exists s. split; [exact Ek|]. intros Al; discriminate.
+Qed.
+
+Lemma frame_trans a b c : frame a b -> frame b c ->
+  (forall k s' s'', nnth k b = Some s' -> nnth k c = Some s'' -> salive s' = true \/ salive s'' = false) ->
+  frame a c.
+Proof.
+  intros F1 F2 M k s'' H. destruct (F2 k s'' H) as (s' & H1 & S2). destruct (F1 k s' H1) as (s & H0 & S1).
+  exists s. split; [exact H0|]. eapply sbc_trans; eauto.
+Qed.
+
+Lemma close_conn_frame c sv sv' evs : close_conn c sv = Some (sv', evs) -> frame (sessions sv) (sessions sv').
+Proof.
+  unfold close_conn. intros H.
+  destruct (nnth c (conns sv)) as [x|]; [|inversion H; subst; apply frame_refl].
+  destruct (copen x); cbn [negb] in H; [|inversion H; subst; apply frame_refl].
+  destruct (csess x) as [k|]; [|inversion H; subst; apply frame_refl].
+  unfold set_conn in H; cbn [sessions conns] in H.
+  destruct (nnth k (sessions sv)) as [s|] eqn:Ek; [|inversion H; subst; apply frame_refl].
+  destruct (salive s) eqn:Al; cbn [negb] in H; [|inversion H; subst; apply frame_refl].
+  set (s' := mkSess _ _ _ _ _ _ (nremove c (sconns s)) _ _ _ true) in H.
+  assert (F : frame (sessions sv) (nset k s' (sessions sv))).
+  { intros k' s'' H1. rewrite (nnth_nset _ _ _ _ _ Ek) in H1.
+    destruct (N.eqb_spec k' k) as [->|]; [|exists s''; split; [exact H1|apply sbc_refl]].
+    inversion H1; subst s''. exists s. split; [exact Ek|]. intros _. exists (nremove c (sconns s)).
+    subst s'. destruct s; cbn in *. now rewrite Al. }
+  assert (T : forall sv2 ev2, end_session k 2 (set_sess k s' (mkSrv (sessions sv) (nset c (mkConn false (Some k) (cip x) (ctcp x)) (conns sv)))) = (sv2, ev2) ->
+              frame (sessions sv) (sessions sv2)).
+  { intros sv2 ev2 Ee. eapply frame_trans; [exact F|exact (end_session_frame _ _ _ _ _ Ee)|].
+    intros k' a b Ha Hb. unfold end_session in Ee. unfold set_sess in Ee; cbn [sessions conns] in Ee.
+    rewrite (nnth_nset_same k s' (sessions sv)) in Ee by (eapply nnth_some_lt; eauto). cbn [salive s'] in Ee.
+    inversion Ee; subst sv2; cbn [sessions] in Hb.
+    rewrite nset_nset, (nnth_nset _ _ _ _ _ Ek) in Hb. rewrite (nnth_nset _ _ _ _ _ Ek) in Ha.
+    destruct (N.eqb_spec k' k); [inversion Hb; right; reflexivity|].
+    rewrite Ha in Hb; inversion Hb; subst. destruct (salive b); auto. }
+  destruct (streaming s).
+  - destruct (stransport s); [|discriminate].
+    destruct (_ && _); inversion H as [H1]; clear H; [eapply T; eauto|subst; exact F].
+  - destruct (_ =? _); inversion H as [H1]; clear H; [eapply T; eauto|subst; exact F].
+Qed.
+
+Definition mono (ss ss' : list session) : Prop :=
+  forall k a b, nnth k ss = Some a -> nnth k ss' = Some b -> salive a = true \/ salive b = false.
+
+Lemma mono_refl ss : mono ss ss.
+Proof. intros k a b H1 H2. rewrite H1 in H2; inversion H2; subst. destruct (salive b); auto. Qed.
+
+Lemma end_session_mono k w sv sv' evs : end_session k w sv = (sv', evs) -> mono (sessions sv) (sessions sv').
+Proof.
+  unfold end_session. intros H.
+  destruct (nnth k (sessions sv)) as [s|] eqn:Ek; [|inversion H; subst; apply mono_refl].
+  destruct (salive s); inversion H; subst; [|apply mono_refl]. cbn [sessions].
+  intros k' a b Ha Hb. rewrite (nnth_nset _ _ _ _ _ Ek) in Hb.
+  destruct (N.eqb_spec k' k); [inversion Hb; right; reflexivity|].
+  rewrite Ha in Hb; inversion Hb; subst. destruct (salive b); auto.
+Qed.
+
+Lemma frame_set k s s1 l ss :
+  nnth k ss = Some s -> frame (nset k s1 ss) (nset k (upd_conns s1 l) ss).
+Proof.
+  intros Ek k' s' H. rewrite (nnth_nset _ _ _ _ _ Ek) in H. rewrite (nnth_nset _ _ _ _ _ Ek).
+  destruct (N.eqb_spec k' k); [|exists s'; split; [exact H|apply sbc_refl]].
+  inversion H; subst s'. exists s1. split; [reflexivity|]. intros _. eauto.
+Qed.
+
+Lemma finish_frame c sv rp e evs0 sv' rp' evs :
+  finish c sv rp e evs0 = Done sv' rp' evs -> frame (sessions sv) (sessions sv').
+Proof.
+  unfold finish. destruct (is_fatal e).
+  - destruct (close_conn c sv) as [[sv1 ev1]|] eqn:E; [|discriminate].
+    intros H; inversion H; subst. eapply close_conn_frame; eauto.
+  - intros H; inversion H; subst. apply frame_refl.
+Qed.
+
+Lemma in_session_frame cf sv c x r k evs0 sv' rp evs :
+  in_session cf sv c x r k evs0 = Done sv' rp evs ->
+  exists s s1 status e,
+    nnth k (sessions sv) = Some s /\
+    handle cf (sessions sv) c r (upd_conns s (nadd c (sconns s))) = HOk s1 status e /\
+    frame (nset k s1 (sessions sv)) (sessions sv').
+Proof.
+  unfold in_session. destruct (nnth k (sessions sv)) as [s|] eqn:Ek; [|discriminate].
+  destruct (handle _ _ _ _ _) as [s1 status e| |] eqn:Eh; [|discriminate|discriminate].
+  intros H. exists s, s1, status, e. split; [reflexivity|]. split; [exact Eh|].
+  destruct (negb (is_fatal e) && meth_eqb (rmeth r) Teardown) eqn:Etd.
+  - destruct (end_session k 1 _) as [sv3 evs1] eqn:Ee.
+    apply finish_frame in H.
+    pose proof (end_session_frame _ _ _ _ _ Ee) as F2. pose proof (end_session_mono _ _ _ _ _ Ee) as M2.
+    unfold set_conn, set_sess in F2, M2; cbn [sessions conns] in F2, M2.
+    unfold finish in *.
+    assert (F13 : frame (nset k s1 (sessions sv)) (sessions sv3)).
+    { eapply frame_trans; [apply (frame_set k s s1 (nremove c (sconns s1)) _ Ek)|exact F2|exact M2]. }
+    intros k' s' H1. destruct (H k' s' H1) as (s3 & H3 & S3).
+    destruct (F13 k' s3 H3) as (s0 & H0 & S0). exists s0. split; [exact H0|].
+    intros Al. destruct (S3 Al) as (l3 & ->). cbn [salive upd_conns] in Al.
+    destruct (S0 Al) as (l0 & ->). eauto.
+  - apply finish_frame in H. unfold set_conn, set_sess in H; cbn [sessions conns] in H. exact H.
+Qed.
+
+(* a property of session records that ignores the connection list, holds of a fresh session and is
+   preserved by the handler (under a side condition Q on the request) holds of every live session
+   after a step *)
+Theorem step_lift (P : session -> Prop) (Q : req -> session -> Prop) :
+  (forall s l, P s -> P (upd_conns s l)) ->
+  (forall r s l, Q r s -> Q r (upd_conns s l)) ->
+  (forall c ip, P (new_session c ip)) ->
+  (forall cf o c r s s1 st e, P s -> Q r s -> handle cf o c r s = HOk s1 st e -> P s1) ->
+  forall cf sv r sv' rp evs,
+  step cf sv r = Done sv' rp evs ->
+  (forall k s, nnth k (sessions sv) = Some s -> salive s = true -> P s) ->
+  (forall k s, target cf sv r = Some k -> nnth k (sessions sv) = Some s -> Q r s) ->
+  (forall c ip, Q r (new_session c ip)) ->
+  forall k s', nnth k (sessions sv') = Some s' -> salive s' = true -> P s'.
+Proof.
+  intros PC QC PN PH cf sv r sv' rp evs H PA QA QN.
+  assert (FR : frame (sessions sv) (sessions sv') -> forall k s', nnth k (sessions sv') = Some s' -> salive s' = true -> P s').
+  { intros F k s' H1 Al. destruct (F k s' H1) as (s & H0 & S). destruct (S Al) as (l & ->). apply PC. eapply PA; eauto. }
+  unfold target, lookup in QA. unfold step in H.
+  destruct (nnth (rconn r) (conns sv)) as [x|]; [|inversion H; subst; apply FR, frame_refl].
+  destruct (copen x); cbn [negb] in *; [|inversion H; subst; apply FR, frame_refl].
+  destruct (ctcp x && _); [discriminate|].
+  destruct (rcseq r); cbn [negb] in *; [|apply FR; eapply finish_frame; eauto].
+  destruct (dispatch cf r) as [status e|create]; [apply FR; eapply finish_frame; eauto|].
+  assert (IS : forall sv0 k evs0,
+            in_session cf sv0 (rconn r) x r k evs0 = Done sv' rp evs ->
+            (forall k' s, nnth k' (sessions sv0) = Some s -> salive s = true -> P s) ->
+            (forall s, nnth k (sessions sv0) = Some s -> Q r s) ->
+            forall k' s', nnth k' (sessions sv') = Some s' -> salive s' = true -> P s').
+  { intros sv0 k evs0 Hi PA' QA' k' s' H1 Al. apply in_session_frame in Hi.
+    destruct Hi as (s & s1 & status & e & Ek & Eh & F).
+    destruct (F k' s' H1) as (s2 & H2 & S). destruct (S Al) as (l & ->). apply PC. cbn [upd_conns salive] in Al.
+    rewrite (nnth_nset _ _ _ _ _ Ek) in H2. destruct (N.eqb_spec k' k) as [->|NK].
+    - inversion H2; subst s2. destruct (handle_frame _ _ _ _ _ _ _ _ Eh) as (F1 & _). cbn in F1.
+      eapply PH; [| |exact Eh]; [apply PC; eapply PA'; eauto; congruence|apply QC; auto].
+    - eapply PA'; eauto. }
+  destruct (csess x) as [k0|].
+  - destruct (match rsess r with Some k => negb (k =? k0) | None => false end);
+      [apply FR; eapply finish_frame; eauto|].
+    eapply IS; [exact H|exact PA|]. intros s Es. eapply QA; [reflexivity|exact Es].
+  - destruct (match rsess r with Some k => _ | None => None end) as [[k s]|] eqn:El.
+    + destruct (cip x =? saip s); [|apply FR; eapply finish_frame; eauto].
+      eapply IS; [exact H|exact PA|]. intros s0 Es. eapply QA; [reflexivity|exact Es].
+    + destruct create; [|apply FR; eapply finish_frame; eauto].
+      eapply IS; [exact H| |]; cbn [sessions].
+      * intros k' s0 H1 Al. destruct (nnth_app_inv _ _ _ _ H1) as [[_ ->]|[_ H2]]; [apply PN|eauto].
+      * intros s0 Es. rewrite nnth_app_last in Es. inversion Es. apply QN.
+Qed.
+
+(* ---------- the UDP check timer is armed exactly while a session streams over UDP ---------- *)
+Definition udp_streaming (s : session) : bool :=
+  streaming s && match stransport s with Some UDP | Some MC => true | _ => false end.
+Definition tm_ok (s : session) : Prop := stimer s = udp_streaming s.
+
+Lemma handle_tm cf o c r s s1 status e :
+  sess_ok s -> tm_ok s -> start_failure r s = false ->
+  handle cf o c r s = HOk s1 status e -> tm_ok s1.
+Proof.
+  unfold handle, fail400, destroy_writer, tm_ok, udp_streaming, start_failure. intros OK T SF H.
+  destruct (pin_reject c s); [inversion H; subst; exact T|].
+  destruct OK as (I1 & I1' & I2 & I4 & I3 & I6 & I7 & I8).
+  destruct (rmeth r) eqn:Em; destruct (sstate s) eqn:Es; unfold streaming in *; rewrite ?Es in *;
+    cbn [st_eqb negb andb orb meth_eqb] in *.
+  all: brk H; try discriminate.
+  all: cbn [negb] in *; rewrite ?orb_true_r, ?orb_false_r, ?andb_true_r, ?andb_false_r in *; try discriminate.
+  all: inversion H; subst; clear H; cbn; rewrite ?Es; cbn; auto.
+  all: try (rewrite T; reflexivity).
+  all: try (match goal with E : stransport _ = Some _ |- _ => rewrite E in *; cbn in *; auto; try congruence end).
+  all: try (exfalso; apply I7; auto; fail).
+  all: try (match goal with p : proto |- _ => destruct p; cbn in *; congruence end).
+Qed.
+
+Theorem step_timer_armed cf sv r sv' rp evs :
+  step cf sv r = Done sv' rp evs ->
+  no_start_failure cf sv r ->
+  (forall k s, nnth k (sessions sv) = Some s -> salive s = true -> sess_ok s /\ tm_ok s) ->
+  forall k s', nnth k (sessions sv') = Some s' -> salive s' = true -> sess_ok s' /\ tm_ok s'.
+Proof.
+  intros H NS PA.
+  apply (step_lift (fun s => sess_ok s /\ tm_ok s) (fun r s => start_failure r s = false)) with (cf := cf) (sv := sv) (r := r) (rp := rp) (evs := evs); auto.
+  - intros c ip. split; [apply sess_ok_new|reflexivity].
+  - intros cf0 o c r0 s s1 st e [A B] Q Hh. split; [eapply handle_ok; eauto|eapply handle_tm; eauto].
+  - intros c ip. unfold start_failure. cbn. destruct (meth_eqb (rmeth r) RecordM); reflexivity.
+Qed.
+
+(* ---------- the finding: RECORD over UDP whose first UDP write fails ---------- *)
+Definition cf_all : cfg := mkCfg true true true true true true true true true false 2.
+Definition w_announce : req := mkReq 0 Announce None true 200 false 0 0 0 [] None None 0 1.
+Definition w_setup : req := mkReq 0 Setup (Some 0) true 200 false 0 0 2 [UDP] (Some (0, 1)) None 0 0.
+Definition w_record : req := mkReq 0 RecordM (Some 0) true 200 false 0 0 0 [] None None 0 0.
+
+Definition w_before : server :=
+  final_server (init_server [0]) (fst (run_reqs cf_all (init_server [0]) [w_announce; w_setup])).
+
+(* the state is reachable, RECORD is legal in it and the application accepts it; the answer is 400,
+   yet the session has moved to Record; its only connection is closed, it is alive, streaming over
+   UDP, and its check timer is not armed: nothing will ever end it *)
+Lemma record_start_failure_witness :
+  exists sv' rp evs,
+    step cf_all w_before w_record = Done sv' (Some rp) evs /\
+    target cf_all w_before w_record = Some 0 /\
+    pst w_before = [PreRecord] /\ Rfc2326.allowed PreRecord RecordM = true /\
+    rstatus rp = 400 /\ pst sv' = [Record] /\
+    (exists s, nnth 0 (sessions sv') = Some s /\ salive s = true /\ sconns s = [] /\
+               udp_streaming s = true /\ stimer s = false) /\
+    conn_open sv' 0 = false /\ evs = [].
+Proof. vm_compute. eexists _, _, _. repeat split. eexists. repeat split. Qed.
+
+(* ---------- why a session ends ---------- *)
+Lemma end_session_events k w sv sv' evs k' w' :
+  end_session k w sv = (sv', evs) -> In (EvEnd k' w') evs -> k' = k /\ w' = w.
+Proof.
+  unfold end_session. intros H I.
+  destruct (nnth k (sessions sv)) as [s|]; [|inversion H; subst; contradiction].
+  destruct (salive s); inversion H; subst; [|contradiction].
+  destruct I as [I|[]]. inversion I; auto.
+Qed.
+
+Lemma nlen_zero_nil {A} (l : list A) : (nlen l =? 0) = true -> l = [].
+Proof. intros H. apply nlen_nil_iff. lia. Qed.
+
+(* reason 2: the session is left without connections and is not streaming over UDP *)
+Definition unused (sv : server) (k : N) : Prop :=
+  exists s, nnth k (sessions sv) = Some s /\ sconns s = [] /\ udp_streaming s = false.
+
+Lemma close_conn_events c sv sv' evs k w :
+  close_conn c sv = Some (sv', evs) -> In (EvEnd k w) evs -> w = 2 /\ unused sv' k.
+Proof.
+  unfold close_conn. intros H I.
+  destruct (nnth c (conns sv)) as [x|]; [|inversion H; subst; contradiction].
+  destruct (copen x); cbn [negb] in H; [|inversion H; subst; contradiction].
+  destruct (csess x) as [k0|]; [|inversion H; subst; contradiction].
+  unfold set_conn in H; cbn [sessions conns] in H.
+  destruct (nnth k0 (sessions sv)) as [s|] eqn:Ek; [|inversion H; subst; contradiction].
+  destruct (salive s) eqn:Al; cbn [negb] in H; [|inversion H; subst; contradiction].
+  set (s' := mkSess _ _ _ _ _ _ (nremove c (sconns s)) _ _ _ true) in H.
+  assert (T : forall sv2 ev2 (U : udp_streaming s = false) (Z : (nlen (sconns s') =? 0) = true),
+              end_session k0 2 (set_sess k0 s' (mkSrv (sessions sv) (nset c (mkConn false (Some k0) (cip x) (ctcp x)) (conns sv)))) = (sv2, ev2) ->
+              In (EvEnd k w) ev2 -> w = 2 /\ unused sv2 k).
+  { intros sv2 ev2 U Z Ee I2. destruct (end_session_events _ _ _ _ _ _ _ Ee I2) as [-> ->]. split; [reflexivity|].
+    unfold end_session, set_sess in Ee; cbn [sessions conns] in Ee.
+    rewrite (nnth_nset_same k0 s' (sessions sv)) in Ee by (eapply nnth_some_lt; eauto). cbn [salive s'] in Ee.
+    inversion Ee; subst sv2. unfold unused; cbn [sessions]. eexists. split.
+    - apply nnth_nset_same. rewrite nlen_nset. eapply nnth_some_lt; eauto.
+    - cbn [sconns]. split; [apply nlen_zero_nil; exact Z|exact U]. }
+  unfold udp_streaming in T.
+  destruct (streaming s) eqn:St.
+  - destruct (stransport s) as [p|] eqn:Tr; [|discriminate].
+    destruct (proto_eqb p TCP && (nlen (sconns s') =? 0)) eqn:Cnd; inversion H as [H1]; clear H; [|subst; contradiction].
+    apply andb_true_iff in Cnd. destruct Cnd as [C1 C2]. eapply T; eauto. destruct p; cbn in *; congruence.
+  - destruct (nlen (sconns s') =? 0) eqn:Cnd; inversion H as [H1]; clear H; [|subst; contradiction].
+    eapply T; eauto.
+Qed.
+
+Lemma handle_teardown_ok cf o c r s s1 status e :
+  rmeth r = Teardown -> handle cf o c r s = HOk s1 status e -> is_fatal e = false -> status = sOK.
+Proof.
+  intros Em. unfold handle, fail400. rewrite Em.
+  destruct (pin_reject c s); [intros H; inversion H; subst; discriminate|].
+  destruct (streaming s); [destruct (stransport s) as [[]|]|]; intros H; inversion H; reflexivity.
+Qed.
+
+Lemma finish_events c sv rp e evs0 sv' rp' evs k w :
+  finish c sv rp e evs0 = Done sv' rp' evs -> In (EvEnd k w) evs ->
+  In (EvEnd k w) evs0 \/ (w = 2 /\ unused sv' k).
+Proof.
+  unfold finish. destruct (is_fatal e).
+  - destruct (close_conn c sv) as [[sv1 ev1]|] eqn:E; [|discriminate].
+    intros H I; inversion H; subst. apply in_app_iff in I. destruct I as [I|I]; [auto|].
+    right. eapply close_conn_events; eauto.
+  - intros H I; inversion H; subst. auto.
+Qed.
+
+Lemma in_session_events cf sv c x r k0 sv' rp evs k w :
+  in_session cf sv c x r k0 [] = Done sv' rp evs \/ in_session cf sv c x r k0 [EvOpen k0] = Done sv' rp evs ->
+  In (EvEnd k w) evs ->
+  (w = 1 /\ k = k0 /\ rmeth r = Teardown /\ status_of rp = sOK) \/ (w = 2 /\ unused sv' k).
+Proof.
+  unfold in_session. destruct (nnth k0 (sessions sv)) as [s|] eqn:Ek; [|intros [H|H]; discriminate].
+  destruct (handle _ _ _ _ _) as [s1 status e| |] eqn:Eh; [|intros [H|H]; discriminate|intros [H|H]; discriminate].
+  intros H I.
+  destruct (negb (is_fatal e) && meth_eqb (rmeth r) Teardown) eqn:Etd.
+  - destruct (end_session k0 1 _) as [sv3 evs1] eqn:Ee.
+    apply andb_true_iff in Etd. destruct Etd as [NF Em]. apply negb_true_iff in NF. apply meth_eqb_eq in Em.
+    assert (G : forall evs0, (forall k1 w1, ~ In (EvEnd k1 w1) evs0) ->
+                finish c sv3 (mkResp status true (if negb (is_fatal e) && negb (meth_eqb (rmeth r) Announce) && negb (meth_eqb (rmeth r) Teardown) then Some k0 else None)) e (evs0 ++ evs1) = Done sv' rp evs ->
+                (w = 1 /\ k = k0 /\ rmeth r = Teardown /\ status_of rp = sOK) \/ (w = 2 /\ unused sv' k)).
+    { intros evs0 N0 F. pose proof (finish_spec _ _ _ _ _ _ _ _ F) as [_ ->].
+      destruct (finish_events _ _ _ _ _ _ _ _ _ _ F I) as [J|J]; [|auto].
+      apply in_app_iff in J. destruct J as [J|J]; [exfalso; eapply N0; eauto|].
+      destruct (end_session_events _ _ _ _ _ _ _ Ee J) as [-> ->]. left. repeat split; auto.
+      cbn [status_of rstatus]. eapply handle_teardown_ok; eauto. }
+    destruct H as [H|H]; [apply (G []); [intros ? ? []|exact H]|].
+    apply (G [EvOpen k0]); [intros ? ? [X|[]]; discriminate|exact H].
+  - assert (G : forall evs0, (forall k1 w1, ~ In (EvEnd k1 w1) evs0) ->
+                forall rp0 sv2, finish c sv2 rp0 e (evs0 ++ []) = Done sv' rp evs -> w = 2 /\ unused sv' k).
+    { intros evs0 N0 rp0 sv2 F. destruct (finish_events _ _ _ _ _ _ _ _ _ _ F I) as [J|J]; [|auto].
+      rewrite app_nil_r in J. exfalso; eapply N0; eauto. }
+    right. destruct H as [H|H]; [eapply (G []); [intros ? ? []|exact H]|].
+    eapply (G [EvOpen k0]); [intros ? ? [X|[]]; discriminate|exact H].
+Qed.
+
+(* a session ends during a request only because TEARDOWN addressed to it was answered 200, or because
+   it was left without connections while not streaming over UDP *)
+Theorem end_reason cf sv r sv' rp evs k w :
+  step cf sv r = Done sv' rp evs -> In (EvEnd k w) evs ->
+  (w = 1 /\ target cf sv r = Some k /\ rmeth r = Teardown /\ status_of rp = sOK) \/
+  (w = 2 /\ unused sv' k).
+Proof.
+  unfold step, target, lookup. intros H I.
+  destruct (nnth (rconn r) (conns sv)) as [x|]; [|inversion H; subst; contradiction].
+  destruct (copen x); cbn [negb] in *; [|inversion H; subst; contradiction].
+  destruct (ctcp x && _); [discriminate|].
+  assert (FI : forall rp0 e, finish (rconn r) sv rp0 e [] = Done sv' rp evs -> w = 2 /\ unused sv' k).
+  { intros rp0 e F. destruct (finish_events _ _ _ _ _ _ _ _ _ _ F I) as [[]|J]; exact J. }
+  destruct (rcseq r); cbn [negb] in *; [|right; eapply FI; eauto].
+  destruct (dispatch cf r); [right; eapply FI; eauto|].
+  destruct (csess x) as [k0|].
+  - destruct (match rsess r with Some k1 => negb (k1 =? k0) | None => false end); [right; eapply FI; eauto|].
+    destruct (in_session_events _ _ _ _ _ _ _ _ _ _ _ (or_introl H) I) as [(A & -> & B & C)|J]; auto.
+  - destruct (match rsess r with Some k1 => _ | None => None end) as [[k1 s]|].
+    + destruct (cip x =? saip s); [|right; eapply FI; eauto].
+      destruct (in_session_events _ _ _ _ _ _ _ _ _ _ _ (or_introl H) I) as [(A & -> & B & C)|J]; auto.
+    + destruct create; [|right; eapply FI; eauto].
+      destruct (in_session_events _ _ _ _ _ _ _ _ _ _ _ (or_intror H) I) as [(A & -> & B & C)|J]; auto.
+Qed.
+
+(* ---------- packaged statements for Props_C02 ---------- *)
+Lemma no_panic_from_init cf ips rs :
+  snd (run_reqs cf (init_server ips) rs) = TOk /\
+  Forall (fun x => inv (snd (fst x))) (fst (run_reqs cf (init_server ips) rs)).
+Proof. exact (run_no_panic cf rs (init_server ips) (inv_init ips)). Qed.
+
+Lemma unused_sessions_are_ended sv k s :
+  inv sv -> nnth k (sessions sv) = Some s -> salive s = true ->
+  (forall c, In c (sconns s) <-> linked sv c k) /\
+  (sconns s = [] -> streaming s = true /\ stransport s <> Some TCP).
+Proof.
+  intros I H A. split; [exact (inv_att _ _ I k s H A)|].
+  intros E. apply (inv_empty _ _ I k s H A); [discriminate|exact E].
 Qed.
